@@ -304,6 +304,34 @@ Theorem C10_null_actor :
 Proof. exact act_null. Qed.
 Print Assumptions C10_null_actor.
 
+(** Which failure is reported (executor.py): a failure of [cleanup] REPLACES an earlier failure of [setup], [act]
+    or [assert] (and a pass) - verdict and location are those of [cleanup]; after a failure in [before-assert] it
+    is SWALLOWED - verdict and location stay those of [before-assert]. *)
+Theorem C10_failure_reported_when_cleanup_fails_too :
+  forall (r : table -> program -> res rprog) (asm : list part -> option text) (fuel : nat) (swallow : bool)
+         (earlier : status) (eph : N) (c : tcase) (st : state) (res : result),
+    cleanup_and_finish r asm fuel swallow earlier eph c st = Ok res ->
+    exists sc stc, exec_phase r asm fuel PhCleanup (tc_cleanup c) st = Ok (sc, stc) /\
+      (rs_verdict res, rs_phase res) =
+      match sc with
+      | StPass => (earlier, eph)
+      | _ => if swallow then (earlier, eph) else (sc, phase_code PhCleanup)
+      end.
+Proof. exact cleanup_reported. Qed.
+Print Assumptions C10_failure_reported_when_cleanup_fails_too.
+
+(** a failing [run] in [before-assert] followed by a failing [run] in [cleanup]: HARD_ERROR located in
+    [before-assert] (3), both processes started; the same after a failing [setup]: located in [cleanup] (5) *)
+Example C10_example_cleanup_after_before_assert :
+  let p := PCmd (Cmd (DSys [FConst [112]]) []) acc_empty in
+  let c := TC [] ActNull [IRun false p] [] [IRun false p] in
+  let c' := TC [IRun false p] ActNull [] [] [IRun false p] in
+  (match run_case 10 [47] [] c [Out 1 [] []; Out 2 [] []] with
+   | Ok r => (rs_verdict r, rs_phase r, length (rs_starts r)) | Err _ => (StPass, 99, 0%nat) end) = (StHard, 3, 2%nat) /\
+  (match run_case 10 [47] [] c' [Out 1 [] []; Out 2 [] []] with
+   | Ok r => (rs_verdict r, rs_phase r, length (rs_starts r)) | Err _ => (StPass, 99, 0%nat) end) = (StHard, 5, 2%nat).
+Proof. vm_compute. split; reflexivity. Qed.
+
 (** *** 4. Whole cases: the model refines the specification *)
 
 (** For every well-formed initial symbol table (e.g. the empty one) and EVERY case - `def` instructions for
@@ -337,7 +365,7 @@ Example C10_example_interleaved :
   let c := TC [IDef 1 (VProg p0)] ActNull [IDef 2 (VProg (PRef 1 (Acc [] [AStr [FConst [121]]] [])))] [use] [use] in
   let c' := TC [IDef 1 (VProg p0); use] ActNull [IDef 2 (VProg (PRef 1 acc_empty))] [] [] in
   run_case 10 [47] [] c [Out 0 [] []; Out 0 [] []]
-  = Ok (Res StPass [PS (ExArgv [[112]; [121]; [122]]) None [47]; PS (ExArgv [[112]; [121]; [122]]) None [47]]
+  = Ok (Res StPass 0 [PS (ExArgv [[112]; [121]; [122]]) None [47]; PS (ExArgv [[112]; [121]; [122]]) None [47]]
            (Some (Out 0 [] [])) None []) /\
   run_case 10 [47] [] c' [Out 0 [] []] = Err (EUnknownSymbol 2).
 Proof. vm_compute. split; reflexivity. Qed.
@@ -355,7 +383,7 @@ Example C10_example :
               (ActCommand (PRef 2 (Acc [] [AStr []] [[(99, 100)]])))
               [] [IExitCode 7; IStdout [100]] [] in
   run_case 10 [47] tbl0 c [Out 7 [98] []]
-  = Ok (Res StPass [PS (ExArgv [[112]; [97]; [120]; [121]; []]) (Some [A; B; S]) [47]]
+  = Ok (Res StPass 0 [PS (ExArgv [[112]; [97]; [120]; [121]; []]) (Some [A; B; S]) [47]]
            (Some (Out 7 [100] [])) None []).
 Proof. vm_compute. reflexivity. Qed.
 
@@ -365,7 +393,7 @@ Example C10_example_shell :
   let c := TC [IDef 1 (VProg p0)] ActNull [] [IRun false (PRef 1 (Acc [] [AStr [FConst [97; 32; 98]]] []))]
               [IRun false (PRef 1 acc_empty)] in
   run_case 10 [47] [] c [Out 3 [] []; Out 4 [] []]
-  = Ok (Res StHard [PS (ExShell [101; 99; 104; 111; 32; 32; 39; 120; 39; 32; 97; 32; 98]) None [47];
+  = Ok (Res StHard 5 [PS (ExShell [101; 99; 104; 111; 32; 32; 39; 120; 39; 32; 97; 32; 98]) None [47];
                     PS (ExShell [101; 99; 104; 111; 32; 32; 39; 120; 39]) None [47]]
            (Some (Out 0 [] [])) None []).
 Proof. vm_compute. reflexivity. Qed.
